@@ -134,7 +134,10 @@ func indexedSelectNonRowid(
 
 	var cbErr error
 	if err := ind.Scan(func(r sdb.Record) bool {
-		setKey(r, cols, pk)
+		if !setKey(r, cols, pk) {
+			cbErr = sdb.ErrCorrupted
+			return true
+		}
 
 		var found sdb.Record
 		err := tab.ScanEq(pk, func(row sdb.Record) bool {
@@ -193,7 +196,10 @@ func indexedSelectEqNonRowid(
 	if err := ind.ScanEq(
 		key,
 		func(r sdb.Record) bool {
-			setKey(r, cols, pk)
+			if !setKey(r, cols, pk) {
+				cbErr = sdb.ErrCorrupted
+				return true
+			}
 
 			var found sdb.Record
 			err := tab.ScanEq(pk, func(row sdb.Record) bool { found = row; return true })
@@ -215,9 +221,13 @@ func indexedSelectEqNonRowid(
 }
 
 // make a key from columns from the record
-// updates key
-func setKey(r sdb.Record, indexes []int, key sdb.Key) {
+// updates key. Returns false if the record doesn't have all the columns.
+func setKey(r sdb.Record, indexes []int, key sdb.Key) bool {
 	for i, v := range indexes {
+		if v >= len(r) || i >= len(key) {
+			return false
+		}
 		key[i].V = r[v]
 	}
+	return true
 }
